@@ -90,3 +90,666 @@ Proof.
     injection H as <-; try (split; reflexivity).
   apply jv_of_double_scalar.
 Qed.
+
+(* ===================================================================================== *)
+(* Part A1 — the JSON reader                                                              *)
+(* The potential is ParseSafe's [meas]: unread bytes plus the latched byte when it is not NUL.
+   Since reads + |rest| is constant ([budget]), meas s - meas s' is the number of bytes the parser
+   consumed (read and moved past) between s and s'; every slot and every string byte the reader
+   builds is paid by a consumed byte. *)
+Local Open Scope N_scope.
+
+Lemma emit_until_zero_len : forall l, (length (emit_until_zero l) <= length l)%nat.
+Proof.
+  induction l as [|b t IH]; cbn [emit_until_zero length]; [lia|].
+  destruct (b =? 0); cbn [length]; lia.
+Qed.
+
+Lemma encode_codepoint_len : forall cp, (length (encode_codepoint cp) <= 4)%nat.
+Proof.
+  intros cp. unfold encode_codepoint. cbv zeta.
+  repeat match goal with |- context [if ?b then _ else _] => destruct b end;
+    try (cbn [length]; lia);
+    match goal with |- (length (emit_until_zero ?l) <= _)%nat =>
+      pose proof (emit_until_zero_len l) as H; cbn [length] in H; lia end.
+Qed.
+
+(* four hex digits are four consumed bytes *)
+Lemma parse_hex4_lt : forall n acc s,
+  fst (fst (parse_hex4 n acc s)) = Ok -> (n + meas (snd (parse_hex4 n acc s)) <= meas s)%nat.
+Proof.
+  induction n as [|n IH]; intros acc s; cbn [parse_hex4].
+  - cbn [fst snd]. lia.
+  - pose proof (current_lt s) as T. destruct (current s) as [d s1]. cbn [fst snd] in T.
+    destruct (d =? 0) eqn:E; [cbn [fst]; discriminate|]. apply N.eqb_neq in E. specialize (T E).
+    destruct (15 <? decode_hex d); [cbn [fst]; discriminate|].
+    intros H. specialize (IH _ _ H). lia.
+Qed.
+
+(* result shapes *)
+(* a string being accumulated: every byte appended is paid by a consumed byte *)
+Definition rbS (n0 : nat) (s : ps) (r : code * bytes * ps) : Prop :=
+  (length (snd (fst r)) + meas (snd r) <= n0 + meas s)%nat.
+(* a value *)
+Definition rbV (s : ps) (r : code * jv * ps) : Prop :=
+  (slots (snd (fst r)) + meas (snd r) <= meas s)%nat /\
+  (str_bytes (snd (fst r)) + meas (snd r) <= meas s)%nat.
+(* an array being filled; the slot of the next element is already paid (by '[' or ',') *)
+Definition rbA (acc : list jv) (s : ps) (r : code * jv * ps) : Prop :=
+  (slots (snd (fst r)) + meas (snd r) <= slots (JArr acc) + 1 + meas s)%nat /\
+  (str_bytes (snd (fst r)) + meas (snd r) <= str_bytes (JArr acc) + meas s)%nat.
+(* an object being filled *)
+Definition rbO (acc : list (bytes * jv)) (s : ps) (r : code * jv * ps) : Prop :=
+  (slots (snd (fst r)) + meas (snd r) <= slots (JObj acc) + meas s)%nat /\
+  (str_bytes (snd (fst r)) + meas (snd r) <= str_bytes (JObj acc) + meas s)%nat.
+
+Ltac rb_fwd :=
+  repeat match goal with
+  | H : _ /\ _ |- _ => destruct H
+  | H : Ok = Ok -> _ |- _ => specialize (H eq_refl)
+  | H : ?A -> _, H' : ?A |- _ =>
+      lazymatch type of A with Prop => specialize (H H') end
+  | H : ?c <> 0 -> _ |- _ =>
+      let X := fresh in assert (X : c <> 0) by (first [assumption | lia]); specialize (H X)
+  end.
+
+Ltac rb_sets :=
+  repeat match goal with
+  | |- context [assoc_set ?k ?v ?a] =>
+      pose proof (slots_obj_set k v a); pose proof (str_obj_set k v a);
+      generalize dependent (assoc_set k v a); intros
+  | _ : context [assoc_set ?k ?v ?a] |- _ =>
+      pose proof (slots_obj_set k v a); pose proof (str_obj_set k v a);
+      generalize dependent (assoc_set k v a); intros
+  end.
+
+Ltac rb_leaf :=
+  repeat match goal with |- context [if ?b then _ else _] => destruct b end;
+  pose_moves; unfold rbS, rbV, rbA, rbO, mf2, mf3, mfp, le_st in *; cbn [fst snd] in *;
+  rb_fwd;
+  rewrite ?slots_arr_snoc, ?str_arr_snoc, ?app_length in *;
+  rb_sets;
+  cbn [length slots str_bytes fold_right] in *;
+  first [ lia | split; lia ].
+
+Ltac rb_go D :=
+  cbn [fst snd] in *;
+  lazymatch goal with
+  | |- ?P ?r =>
+      let h := head_scrut r in
+      lazymatch h with
+      | (_, _) => rb_leaf
+      | _ =>
+          first [ D h
+                | is_var h; destruct h
+                | let E := fresh "E" in destruct h eqn:E; conv E ];
+          rb_go D
+      end
+  end.
+
+Ltac r_lex1 h :=
+  lazymatch h with
+  | parse_hex4 ?n ?a ?X =>
+      pose proof (parse_hex4_mf n a X); pose proof (parse_hex4_lt n a X);
+      destruct (parse_hex4 n a X) as [[? ?] ?]
+  | _ => d_lex1 h
+  end.
+
+Lemma quoted_loop_rb : forall cf fuel stop cp acc s,
+  rbS (length acc) s (quoted_loop cf fuel stop cp acc s).
+Proof.
+  intros cf. induction fuel as [|fuel IH]; intros stop cp acc s; cbn [quoted_loop].
+  - rb_leaf.
+  - rb_go ltac:(fun h => lazymatch h with
+      | quoted_loop cf fuel ?st ?c (?a ++ encode_codepoint ?x) ?X =>
+          pose proof (encode_codepoint_len x);
+          pose proof (IH st c (a ++ encode_codepoint x) X);
+          destruct (quoted_loop cf fuel st c (a ++ encode_codepoint x) X) as [[? ?] ?]
+      | quoted_loop cf fuel ?st ?c ?a ?X =>
+          pose proof (IH st c a X); destruct (quoted_loop cf fuel st c a X) as [[? ?] ?]
+      | _ => r_lex1 h end).
+Qed.
+
+Lemma parse_quoted_string_rb : forall cf fuel s, rbS 0 s (parse_quoted_string cf fuel s).
+Proof.
+  intros cf fuel s. unfold parse_quoted_string.
+  rb_go ltac:(fun h => lazymatch h with
+      | quoted_loop cf fuel ?st ?c ?a ?X =>
+          pose proof (quoted_loop_rb cf fuel st c a X);
+          destruct (quoted_loop cf fuel st c a X) as [[? ?] ?]
+      | _ => r_lex1 h end).
+Qed.
+
+Lemma non_quoted_loop_rb : forall fuel acc c s, latched s ->
+  rbS (length acc) s (non_quoted_loop fuel acc c s).
+Proof.
+  induction fuel as [|fuel IH]; intros acc c s L; cbn [non_quoted_loop].
+  - rb_leaf.
+  - rb_go ltac:(fun h => lazymatch h with
+      | non_quoted_loop fuel ?a ?c ?X =>
+          let L := fresh "L" in
+          assert (L : latched X) by (eapply latched_intro; [eassumption | first [assumption | lia]]);
+          pose proof (IH a c X L); destruct (non_quoted_loop fuel a c X) as [[? ?] ?]
+      | _ => r_lex1 h end).
+Qed.
+
+Lemma parse_non_quoted_string_rb : forall fuel s, rbS 0 s (parse_non_quoted_string fuel s).
+Proof.
+  intros fuel s. unfold parse_non_quoted_string.
+  rb_go ltac:(fun h => lazymatch h with
+      | non_quoted_loop fuel ?a ?c ?X =>
+          let L := fresh "L" in
+          assert (L : latched X) by (eapply latched_intro; [eassumption | first [assumption | lia]]);
+          pose proof (non_quoted_loop_rb fuel a c X L);
+          destruct (non_quoted_loop fuel a c X) as [[? ?] ?]
+      | _ => r_lex1 h end).
+Qed.
+
+Lemma parse_key_rb : forall cf fuel s, rbS 0 s (parse_key cf fuel s).
+Proof.
+  intros cf fuel s. unfold parse_key.
+  rb_go ltac:(fun h => lazymatch h with
+      | parse_quoted_string cf fuel ?X =>
+          pose proof (parse_quoted_string_rb cf fuel X);
+          destruct (parse_quoted_string cf fuel X) as [[? ?] ?]
+      | parse_non_quoted_string fuel ?X =>
+          pose proof (parse_non_quoted_string_rb fuel X);
+          destruct (parse_non_quoted_string fuel X) as [[? ?] ?]
+      | _ => r_lex1 h end).
+Qed.
+
+Lemma parse_numeric_value_rb : forall cf s, rbV s (parse_numeric_value cf s).
+Proof.
+  intros cf s. pose proof (parse_numeric_value_mf cf s) as [[_ M] _]. revert M.
+  unfold parse_numeric_value.
+  destruct (scan_number cf 63 [] s) as [buf s1]. cbv beta iota zeta.
+  generalize (if Nat.eqb (length buf) 63 then snd (current s1) else s1). intros s2.
+  destruct (jv_of_number cf (parse_number cf buf)) as [v|] eqn:E; unfold rbV; cbn [fst snd]; intros M.
+  - destruct (jv_of_number_scalar _ _ _ E) as [-> ->]. lia.
+  - cbn [slots str_bytes]. lia.
+Qed.
+
+(* a key that was read consumed at least one byte (its opening quote, or its first character) *)
+Lemma current_some : forall s c, cur s = Some c -> current s = (c, s).
+Proof. intros s c H. unfold current. rewrite H. reflexivity. Qed.
+
+Lemma non_quoted_loop_lt : forall fuel acc c s, latched s ->
+  fst (fst (non_quoted_loop fuel acc c s)) = Ok ->
+  (S (meas (snd (non_quoted_loop fuel acc c s))) <= meas s)%nat.
+Proof.
+  intros [|fuel] acc c s L; cbn [non_quoted_loop]; [cbn [fst]; discriminate|].
+  pose proof (move_lt s L) as M. pose proof (current_le (move s)) as [_ C].
+  destruct (current (move s)) as [c' s1]. cbn [snd] in C.
+  destruct (can_be_in_non_quoted_string c').
+  - pose proof (non_quoted_loop_mf fuel (acc ++ [c]) c' s1) as [[_ X] _]. intros _. lia.
+  - cbn [fst snd]. intros _. lia.
+Qed.
+
+Lemma parse_key_lt : forall cf fuel s,
+  fst (fst (parse_key cf fuel s)) = Ok -> (S (meas (snd (parse_key cf fuel s))) <= meas s)%nat.
+Proof.
+  intros cf fuel s. unfold parse_key.
+  pose proof (current_le s) as [_ C0]. pose proof (current_cur s) as Cc.
+  destruct (current s) as [c s1]. cbn [fst snd] in *.
+  destruct (is_quote c) eqn:Q.
+  - apply is_quote_nz in Q. unfold parse_quoted_string. rewrite (current_some _ _ Cc).
+    assert (L : latched s1) by (eapply latched_intro; eassumption).
+    pose proof (move_lt s1 L) as M.
+    pose proof (quoted_loop_mf cf fuel c cp_init [] (move s1)) as [[_ X] _]. intros _. lia.
+  - unfold parse_non_quoted_string. rewrite (current_some _ _ Cc).
+    destruct (can_be_in_non_quoted_string c) eqn:K; [|cbn [fst]; discriminate].
+    apply cbinqs_nz in K.
+    assert (L : latched s1) by (eapply latched_intro; eassumption).
+    intros H. pose proof (non_quoted_loop_lt fuel [] c s1 L H). lia.
+Qed.
+
+Ltac r_lex2 h :=
+  lazymatch h with
+  | parse_key ?cf ?f ?X =>
+      pose proof (parse_key_mf cf f X); pose proof (parse_key_rb cf f X);
+      pose proof (parse_key_lt cf f X);
+      destruct (parse_key cf f X) as [[? ?] ?]
+  | parse_quoted_string ?cf ?f ?X =>
+      pose proof (parse_quoted_string_mf cf f X); pose proof (parse_quoted_string_rb cf f X);
+      destruct (parse_quoted_string cf f X) as [[? ?] ?]
+  | parse_numeric_value ?cf ?X =>
+      pose proof (parse_numeric_value_mf cf X); pose proof (parse_numeric_value_rb cf X);
+      destruct (parse_numeric_value cf X) as [[? ?] ?]
+  | parse_hex4 _ _ _ => r_lex1 h
+  | _ => d_lex2 h
+  end.
+
+Section ContainersRB.
+  Variable cf : cfg.
+  Variable pv : filter -> ps -> code * jv * ps.
+  Variable sv : ps -> code * ps.
+  Hypothesis pv_rb : forall f s, rbV s (pv f s).
+  Hypothesis sv_le : forall s, le_st (snd (sv s)) s.
+
+  Lemma array_loop_rb : forall fuel ef acc s, rbA acc s (array_loop cf pv sv fuel ef acc s).
+  Proof.
+    induction fuel as [|fuel IH]; intros ef acc s; cbn [array_loop].
+    - rb_leaf.
+    - rb_go ltac:(fun h => lazymatch h with
+        | array_loop cf pv sv fuel ?e ?a ?X =>
+            pose proof (IH e a X); destruct (array_loop cf pv sv fuel e a X) as [[? ?] ?]
+        | pv ?f ?X => pose proof (pv_rb f X); destruct (pv f X) as [[? ?] ?]
+        | sv ?X => pose proof (sv_le X); destruct (sv X) as [? ?]
+        | _ => r_lex2 h end).
+  Qed.
+
+  Lemma object_loop_rb : forall fuel f acc s, rbO acc s (object_loop cf pv sv fuel f acc s).
+  Proof.
+    induction fuel as [|fuel IH]; intros f acc s; cbn [object_loop].
+    - rb_leaf.
+    - rb_go ltac:(fun h => lazymatch h with
+        | object_loop cf pv sv fuel ?e ?a ?X =>
+            pose proof (IH e a X); destruct (object_loop cf pv sv fuel e a X) as [[? ?] ?]
+        | pv ?f ?X => pose proof (pv_rb f X); destruct (pv f X) as [[? ?] ?]
+        | sv ?X => pose proof (sv_le X); destruct (sv X) as [? ?]
+        | _ => r_lex2 h end).
+  Qed.
+End ContainersRB.
+
+Lemma skip_variant_le : forall cf fuel L s, le_st (snd (skip_variant cf fuel L s)) s.
+Proof. intros cf fuel L s. exact (proj1 (skip_variant_mf cf fuel L s)). Qed.
+
+Lemma parse_variant_rb : forall cf fuel L f s, rbV s (parse_variant cf fuel L f s).
+Proof.
+  intros cf fuel. induction L as [|L IH]; intros f s; cbn [parse_variant].
+  - rb_go ltac:(fun h => lazymatch h with
+      | skip_variant cf fuel ?l ?X =>
+          pose proof (skip_variant_mf cf fuel l X); destruct (skip_variant cf fuel l X) as [? ?]
+      | _ => r_lex2 h end).
+  - rb_go ltac:(fun h => lazymatch h with
+      | skip_variant cf fuel ?l ?X =>
+          pose proof (skip_variant_mf cf fuel l X); destruct (skip_variant cf fuel l X) as [? ?]
+      | array_loop cf ?pv ?sv fuel ?e ?a ?X =>
+          pose proof (array_loop_rb cf pv sv IH (skip_variant_le cf fuel L) fuel e a X);
+          destruct (array_loop cf pv sv fuel e a X) as [[? ?] ?]
+      | object_loop cf ?pv ?sv fuel ?e ?a ?X =>
+          pose proof (object_loop_rb cf pv sv IH (skip_variant_le cf fuel L) fuel e a X);
+          destruct (object_loop cf pv sv fuel e a X) as [[? ?] ?]
+      | _ => r_lex2 h end).
+Qed.
+
+(* C06, last clause, JSON: whatever the outcome (also on error: j_doc is then the partial document
+   left behind), the slots and the string bytes of what was built are bounded by the bytes obtained
+   from the reader. *)
+Theorem json_doc_linear : forall cf f L i, let o := json_run cf f L i in
+  (slots (j_doc o) <= N.to_nat (reads (j_st o)))%nat /\
+  (str_bytes (j_doc o) <= N.to_nat (reads (j_st o)))%nat.
+Proof.
+  intros cf f L i. cbv zeta. unfold json_run.
+  pose proof (parse_variant_rb cf (json_fuel i) L f (ps_init i)) as R.
+  pose proof (parse_variant_mf cf (json_fuel i) L f (ps_init i)) as [[B _] _].
+  destruct (parse_variant cf (json_fuel i) L f (ps_init i)) as [[e v] s'].
+  unfold rbV in R. cbn [fst snd] in R, B. cbn [j_doc j_st].
+  unfold budget, ps_init in B. cbn [reads rest] in B.
+  assert (M0 : meas (ps_init i) = length i) by (unfold meas, ps_init; cbn [rest cur]; lia).
+  assert (M1 : (length (rest s') <= meas s')%nat) by (unfold meas; lia).
+  lia.
+Qed.
+
+(* ===================================================================================== *)
+(* Part A2 — the MessagePack reader                                                       *)
+(* Here the byte counter itself is the potential.  A value that was read completely consumed at
+   least its type byte, which pays for its own slot in the enclosing container; the slot of an
+   element that failed is paid by the container's header byte. *)
+Local Close Scope N_scope.
+Local Open Scope Z_scope.
+
+Definition rdz (r : mrd) : Z := Z.of_N (m_reads r).
+
+Definition okc (e : code) : Z := match e with Ok => 1 | _ => 0 end.
+Definition errc (e : code) : Z := match e with Ok => 0 | _ => 1 end.
+
+Lemma okc_errc : forall e, okc e + errc e = 1.
+Proof. destruct e; reflexivity. Qed.
+
+Lemma read_n_rd : forall n r o r', read_n n r = (o, r') ->
+  rdz r <= rdz r' /\ (forall l, o = Some l -> rdz r' = rdz r + Z.of_nat (length l)).
+Proof.
+  intros n r o r' H. unfold read_n in H.
+  destruct (Nat.eqb (length (firstn n (m_rest r))) n); inversion H; subst; unfold rdz; cbn [m_reads];
+    (split; [lia|]); intros l E; inversion E; subst. lia.
+Qed.
+
+Lemma read_z_rd : forall n r o r', read_z n r = (o, r') ->
+  rdz r <= rdz r' /\ (forall l, o = Some l -> rdz r' = rdz r + Z.of_nat (length l)).
+Proof.
+  intros n r o r' H. unfold read_z in H.
+  destruct (n <=? Z.of_nat (length (m_rest r))); [exact (read_n_rd _ _ _ _ H)|].
+  inversion H; subst. unfold rdz; cbn [m_reads]. split; [lia|]. intros l E; discriminate E.
+Qed.
+
+Lemma mp_skip_rd : forall n r e r', mp_skip n r = (e, r') -> rdz r <= rdz r'.
+Proof.
+  intros n r e r' H. unfold mp_skip in H.
+  destruct (read_z n r) as [[p|] r1] eqn:E; inversion H; subst; exact (proj1 (read_z_rd _ _ _ _ E)).
+Qed.
+
+(* a key that was read consumed its header byte and its characters *)
+Lemma read_key_rd : forall r e key r', mp_read_key r = (e, key, r') ->
+  rdz r <= rdz r' /\ (e = Ok -> Z.of_nat (length key) + 1 + rdz r <= rdz r').
+Proof.
+  intros r e key r' H. unfold mp_read_key in H.
+  destruct (read_n 1 r) as [o r1] eqn:E1. destruct (read_n_rd _ _ _ _ E1) as [A1 B1].
+  destruct o as [[|c [|c' t]]|]; try (inversion H; subst; split; [exact A1|discriminate]).
+  specialize (B1 _ eq_refl). cbn [length] in B1.
+  cbv zeta in H.
+  destruct (Z.land (Z.of_N c) 0xE0 =? 0xA0).
+  { destruct (read_z (Z.land (Z.of_N c) 0x1F) r1) as [[s|] r2] eqn:E2;
+      destruct (read_z_rd _ _ _ _ E2) as [A2 B2]; inversion H; subst.
+    - specialize (B2 _ eq_refl). split; [lia|intros _; lia].
+    - split; [lia|discriminate]. }
+  destruct ((0xD9 <=? Z.of_N c) && (Z.of_N c <=? 0xDB)); [|inversion H; subst; split; [lia|discriminate]].
+  destruct (read_n (Z.to_nat (2 ^ (Z.of_N c - 0xD9))) r1) as [[l|] r2] eqn:E2;
+    destruct (read_n_rd _ _ _ _ E2) as [A2 _]; [|inversion H; subst; split; [lia|discriminate]].
+  destruct (max_string_length <? be_value l 0); [inversion H; subst; split; [lia|discriminate]|].
+  destruct (read_z (be_value l 0) r2) as [[s|] r3] eqn:E3;
+    destruct (read_z_rd _ _ _ _ E3) as [A3 B3]; inversion H; subst.
+  - specialize (B3 _ eq_refl). split; [lia|intros _; lia].
+  - split; [lia|discriminate].
+Qed.
+
+(* what is known about the parser one level down *)
+Definition mpV (e : code) (v : jv) (r r' : mrd) : Prop :=
+  Z.of_nat (slots v) + okc e + rdz r <= rdz r' /\ Z.of_nat (str_bytes v) + rdz r <= rdz r'.
+
+Definition pv_lin (pv : pvT) : Prop :=
+  forall f d r e v r', pv f d r = (e, v, r') -> mpV e v r r'.
+
+Lemma mp_array_loop_lin : forall pv, pv_lin pv ->
+  forall cnt ef keep acc r e l r',
+  mp_array_loop pv cnt ef keep acc r = (e, l, r') ->
+  Z.of_nat (slots (JArr l)) + rdz r <= Z.of_nat (slots (JArr acc)) + rdz r' + errc e /\
+  Z.of_nat (str_bytes (JArr l)) + rdz r <= Z.of_nat (str_bytes (JArr acc)) + rdz r'.
+Proof.
+  intros pv G. induction cnt as [|cnt IH]; intros ef keep acc r e l r' H; cbn [mp_array_loop] in H.
+  - inversion H; subst. cbn [errc]. lia.
+  - cbv zeta in H.
+    destruct (pv ef (f_allow ef) r) as [[e1 v1] r1] eqn:E1.
+    destruct (G _ _ _ _ _ _ E1) as [S1 T1].
+    assert (Err : e1 <> Ok -> (e, l, r') = (e1, (if f_allow ef then acc ++ [v1] else acc), r1) ->
+            Z.of_nat (slots (JArr l)) + rdz r <= Z.of_nat (slots (JArr acc)) + rdz r' + errc e /\
+            Z.of_nat (str_bytes (JArr l)) + rdz r <= Z.of_nat (str_bytes (JArr acc)) + rdz r').
+    { intros Hne X. inversion X; subst.
+      assert (errc e1 = 1) by (destruct e1; try reflexivity; contradiction Hne; reflexivity).
+      assert (0 <= okc e1) by (destruct e1; cbn; lia).
+      destruct (f_allow ef); [rewrite slots_arr_snoc, str_arr_snoc|]; lia. }
+    destruct e1; try (apply Err; [discriminate|symmetry; exact H]).
+    destruct (IH _ _ _ _ _ _ _ H) as [S2 T2]. cbn [okc] in S1.
+    destruct (f_allow ef); [rewrite slots_arr_snoc in S2; rewrite str_arr_snoc in T2|]; lia.
+Qed.
+
+Lemma mp_object_loop_lin : forall pv, pv_lin pv ->
+  forall cnt f acc r e l r',
+  mp_object_loop pv cnt f acc r = (e, l, r') ->
+  Z.of_nat (slots (JObj l)) + rdz r <= Z.of_nat (slots (JObj acc)) + rdz r' + errc e /\
+  Z.of_nat (str_bytes (JObj l)) + rdz r <= Z.of_nat (str_bytes (JObj acc)) + rdz r'.
+Proof.
+  intros pv G. induction cnt as [|cnt IH]; intros f acc r e l r' H; cbn [mp_object_loop] in H.
+  - inversion H; subst. cbn [errc]. lia.
+  - destruct (mp_read_key r) as [[ek key] rk] eqn:Ek.
+    destruct (read_key_rd _ _ _ _ Ek) as [Ak Bk].
+    destruct ek; try (inversion H; subst; cbn [errc]; lia).
+    specialize (Bk eq_refl). cbv zeta in H.
+    destruct (pv (f_member f key) (f_allow (f_member f key)) rk) as [[e1 v1] r1] eqn:E1.
+    destruct (G _ _ _ _ _ _ E1) as [S1 T1].
+    assert (Err : e1 <> Ok ->
+            (e, l, r') = (e1, (if f_allow (f_member f key) then acc ++ [(key, v1)] else acc), r1) ->
+            Z.of_nat (slots (JObj l)) + rdz r <= Z.of_nat (slots (JObj acc)) + rdz r' + errc e /\
+            Z.of_nat (str_bytes (JObj l)) + rdz r <= Z.of_nat (str_bytes (JObj acc)) + rdz r').
+    { intros Hne X. inversion X; subst.
+      assert (errc e1 = 1) by (destruct e1; try reflexivity; contradiction Hne; reflexivity).
+      assert (0 <= okc e1) by (destruct e1; cbn; lia).
+      destruct (f_allow (f_member f key)); [rewrite slots_obj_snoc, str_obj_snoc|]; lia. }
+    destruct e1; try (apply Err; [discriminate|symmetry; exact H]).
+    destruct (IH _ _ _ _ _ _ H) as [S2 T2]. cbn [okc] in S1.
+    destruct (f_allow (f_member f key));
+      [rewrite slots_obj_snoc in S2; rewrite str_obj_snoc in T2|]; lia.
+Qed.
+
+(* strings, containers, bin/ext: [r] is the reader after the type byte, which accounts for the +1 *)
+Lemma mp_tail_lin : forall pv Lz f cb r e v r', pv_lin pv ->
+  mp_tail pv Lz f cb r = (e, v, r') ->
+  Z.of_nat (slots v) + okc e + rdz r <= rdz r' + 1 /\ Z.of_nat (str_bytes v) + rdz r <= rdz r' + 1.
+Proof.
+  intros pv Lz f cb r e v r' G. unfold mp_tail. cbv zeta.
+  set (c := Z.of_N cb). set (sb := size_bytes_of c).
+  destruct (if Nat.eqb sb 0 then (Some [], r) else read_n sb r) as [[hb|] r1] eqn:Eh.
+  2:{ intros H. inversion H; subst.
+      assert (A1 : rdz r <= rdz r').
+      { destruct (Nat.eqb sb 0); [inversion Eh|exact (proj1 (read_n_rd _ _ _ _ Eh))]. }
+      cbn [slots str_bytes okc]. lia. }
+  assert (A1 : rdz r1 = rdz r + Z.of_nat (length hb)).
+  { destruct (Nat.eqb sb 0); [inversion Eh; subst; cbn [length]; lia|].
+    exact (proj2 (read_n_rd _ _ _ _ Eh) _ eq_refl). }
+  set (size := if Nat.eqb sb 0 then size0_of c else be_value hb 0). clearbody size.
+  destruct (is_arr_code c).
+  { destruct Lz.
+    { intros H. inversion H; subst. cbn [slots str_bytes okc]. lia. }
+    destruct (mp_array_loop pv (clip_count size r1) (f_element f) (f_allow_array f) [] r1)
+      as [[e1 l1] r2] eqn:EL.
+    destruct (mp_array_loop_lin pv G _ _ _ _ _ _ _ _ EL) as [S2 T2].
+    pose proof (okc_errc e1) as OE.
+    assert (P0 : 0 <= okc e1) by (destruct e1; cbn; lia).
+    intros H. inversion H; subst. change (slots (JArr [])) with 0%nat in S2.
+    change (str_bytes (JArr [])) with 0%nat in T2.
+    destruct (f_allow_array f); [|cbn [slots str_bytes]]; lia. }
+  destruct (is_map_code c).
+  { destruct Lz.
+    { intros H. inversion H; subst. cbn [slots str_bytes okc]. lia. }
+    destruct (mp_object_loop pv (clip_count size r1) f [] r1) as [[e1 l1] r2] eqn:EL.
+    destruct (mp_object_loop_lin pv G _ _ _ _ _ _ _ EL) as [S2 T2].
+    pose proof (okc_errc e1) as OE.
+    assert (P0 : 0 <= okc e1) by (destruct e1; cbn; lia).
+    intros H. inversion H; subst. change (slots (JObj [])) with 0%nat in S2.
+    change (str_bytes (JObj [])) with 0%nat in T2.
+    destruct (f_allow_object f); [|cbn [slots str_bytes]]; lia. }
+  destruct (is_str_code c).
+  { destruct (f_allow_value f).
+    - destruct (max_string_length <? size).
+      { intros H; inversion H; subst. cbn [slots str_bytes okc]. lia. }
+      destruct (read_z size r1) as [[s|] r2] eqn:E2; destruct (read_z_rd _ _ _ _ E2) as [A2 B2];
+        intros H; inversion H; subst; cbn [slots str_bytes okc]; [specialize (B2 _ eq_refl)|]; lia.
+    - destruct (mp_skip size r1) as [e2 r2] eqn:E2. pose proof (mp_skip_rd _ _ _ _ E2) as SK.
+      intros H; inversion H; subst. assert (P1 : okc e <= 1) by (destruct e; cbn; lia).
+      cbn [slots str_bytes]. lia. }
+  set (size' := if is_ext_code c then size + 1 else size). clearbody size'.
+  destruct (f_allow_value f).
+  - destruct (max_string_length <? 1 + Z.of_nat sb + size').
+    { intros H; inversion H; subst. cbn [slots str_bytes okc]. lia. }
+    destruct (read_z size' r1) as [[s|] r2] eqn:E2; destruct (read_z_rd _ _ _ _ E2) as [A2 B2];
+      intros H; inversion H; subst; cbn [slots str_bytes okc length];
+      [specialize (B2 _ eq_refl); rewrite app_length|]; lia.
+  - destruct (mp_skip size' r1) as [e2 r2] eqn:E2. pose proof (mp_skip_rd _ _ _ _ E2) as SK.
+    intros H; inversion H; subst. assert (P1 : okc e <= 1) by (destruct e; cbn; lia).
+    cbn [slots str_bytes]. lia.
+Qed.
+
+Lemma mp_body_lin : forall cf pv Lz f r e v r', pv_lin pv ->
+  mp_body cf pv Lz f r = (e, v, r') -> mpV e v r r'.
+Proof.
+  intros cf pv Lz f r e v r' G. unfold mp_body, mpV.
+  destruct (read_n 1 r) as [o r1] eqn:E1. destruct (read_n_rd _ _ _ _ E1) as [A1 B1].
+  destruct o as [[|cb [|c' t]]|];
+    try (intros H; inversion H; subst; cbn [slots str_bytes okc]; lia).
+  specialize (B1 _ eq_refl). cbn [length] in B1.
+  cbv zeta. set (c := Z.of_N cb).
+  assert (Fixed : forall w (K : bytes -> jv),
+            (forall l, slots (K l) = 0%nat /\ str_bytes (K l) = 0%nat) ->
+            (if f_allow_value f
+             then match read_n w r1 with
+                  | (Some l, r) => (Ok, K l, r)
+                  | (None, r) => (IncompleteInput, JNull, r)
+                  end
+             else let '(e, r) := mp_skip (Z.of_nat w) r1 in (e, JNull, r)) = (e, v, r') ->
+            Z.of_nat (slots v) + okc e + rdz r <= rdz r' /\ Z.of_nat (str_bytes v) + rdz r <= rdz r').
+  { intros w K HK. destruct (f_allow_value f).
+    - destruct (read_n w r1) as [[l|] r2] eqn:E2; destruct (read_n_rd _ _ _ _ E2) as [A2 _];
+        intros H; inversion H; subst; [destruct (HK l) as [-> ->]|]; cbn [slots str_bytes okc]; lia.
+    - destruct (mp_skip (Z.of_nat w) r1) as [e2 r2] eqn:E2. pose proof (mp_skip_rd _ _ _ _ E2) as SK.
+      intros H; inversion H; subst. assert (P1 : okc e <= 1) by (destruct e; cbn; lia).
+      cbn [slots str_bytes]. lia. }
+  destruct ((0xCC <=? c) && (c <=? 0xD3)).
+  { apply (Fixed _ (fun l => JInt (if 0xD0 <=? c
+                                   then signed_of (Z.to_nat (2 ^ ((c - 0xCC) mod 4))) (be_value l 0)
+                                   else be_value l 0))). intros l; split; reflexivity. }
+  destruct (c =? 0xC0).
+  { intros H; inversion H; subst. cbn [slots str_bytes okc]. lia. }
+  destruct (c =? 0xC1).
+  { intros H; inversion H; subst. cbn [slots str_bytes okc]. lia. }
+  destruct ((c =? 0xC2) || (c =? 0xC3)).
+  { intros H; inversion H; subst. destruct (f_allow_value f); cbn [slots str_bytes okc]; lia. }
+  destruct (c =? 0xCA).
+  { apply (Fixed 4%nat (fun l => JFloat (sf_of_bits F32 (be_value l 0)))). intros l; split; reflexivity. }
+  destruct (c =? 0xCB).
+  { apply (Fixed 8%nat (fun l => jv_of_double (use_double cf) (sf_of_bits F64 (be_value l 0)))).
+    intros l. apply jv_of_double_scalar. }
+  destruct ((c <=? 0x7F) || (0xE0 <=? c)).
+  { intros H; inversion H; subst. destruct (f_allow_value f); cbn [slots str_bytes okc]; lia. }
+  intros H. destruct (mp_tail_lin pv Lz f cb r1 e v r' G H) as [S2 T2]. lia.
+Qed.
+
+Lemma mp_parse_lin : forall cf L, pv_lin (mp_parse cf L).
+Proof.
+  intros cf. induction L as [|L IH]; intros f d r e v r' H; rewrite mp_parse_eq in H.
+  - apply (mp_body_lin cf _ _ _ _ _ _ _) with (2 := H).
+    intros f0 d0 r0 e0 v0 r0' H0. cbn [pv_of] in H0. inversion H0; subst.
+    unfold mpV. cbn [slots str_bytes okc]. lia.
+  - apply (mp_body_lin cf _ _ _ _ _ _ _) with (2 := H). exact IH.
+Qed.
+
+(* C06, last clause, MessagePack: whatever a header announces, and whatever the outcome (on error
+   mp_doc is the partial document), only what was present in the input is built. *)
+Theorem mp_doc_linear : forall cf f L i, let o := mp_run cf f L i in
+  (slots (mp_doc o) <= N.to_nat (m_reads (mp_rd o)))%nat /\
+  (str_bytes (mp_doc o) <= N.to_nat (m_reads (mp_rd o)))%nat.
+Proof.
+  intros cf f L i. cbv zeta. unfold mp_run.
+  destruct (mp_parse cf L f true {| m_rest := i; m_reads := 0 |}) as [[e v] r'] eqn:E.
+  destruct (mp_parse_lin cf L _ _ _ _ _ _ E) as [S1 T1]. cbn [mp_doc mp_rd].
+  unfold rdz in *. cbn [m_reads] in *.
+  assert (0 <= okc e) by (destruct e; cbn; lia). lia.
+Qed.
+
+(* ===================================================================================== *)
+(* Part B — successive MessagePack calls on one stream (C16)                              *)
+Local Open Scope N_scope.
+
+(* on an exhausted stream the call reports EmptyInput, reads nothing and leaves a null document *)
+Lemma mp_run_nil : forall cf f L,
+  mp_run cf f L [] =
+    {| mp_err := EmptyInput; mp_doc := JNull; mp_rd := {| m_rest := []; m_reads := 0 |} |}.
+Proof. intros cf f L. unfold mp_run. rewrite mp_parse_eq. reflexivity. Qed.
+
+(* expected results for objects vs encoded as bs, starting at stream position pos: one Ok result per
+   object, positioned just after it, then one EmptyInput at the end of the stream *)
+Fixpoint mp_results (cf : cfg) (pos : N) (vs : list mpv) (bs : list bytes) : list call_result :=
+  match vs, bs with
+  | v :: vs', b :: bs' =>
+      let p := pos + N.of_nat (length b) in
+      {| c_err := Ok; c_pos := p; c_doc := mp_den (use_double cf) v |} :: mp_results cf p vs' bs'
+  | _, _ => [{| c_err := EmptyInput; c_pos := pos; c_doc := JNull |}]
+  end.
+
+Lemma rb_skipn_app_exact : forall (b rest : bytes), skipn (length b) (b ++ rest) = rest.
+Proof. induction b as [|x b IH]; intros rest; cbn [length app skipn]; auto. Qed.
+
+Lemma mp_stream_objects_gen : forall cf L vs bs, Forall2 MpEnc vs bs -> Forall mp_limits vs ->
+  Forall (fun v => (mpv_depth v <= L)%nat) vs ->
+  forall calls pos, mp_stream cf L calls pos (concat bs) = firstn calls (mp_results cf pos vs bs).
+Proof.
+  intros cf L vs bs H. induction H as [|v b vs bs Hvb Hrest IH]; intros Hlim Hdep calls pos.
+  - cbn [concat mp_results]. destruct calls as [|calls]; [reflexivity|].
+    cbn [mp_stream firstn]. rewrite mp_run_nil. cbn [mp_err mp_rd mp_doc m_reads].
+    rewrite N.add_0_r. destruct calls; reflexivity.
+  - inversion Hlim as [|? ? Hl1 Hl2]; subst. inversion Hdep as [|? ? Hd1 Hd2]; subst.
+    cbn [concat mp_results]. destruct calls as [|calls]; [reflexivity|].
+    cbn [mp_stream firstn].
+    rewrite (mp_run_complete cf v b Hvb Hl1 L (concat bs) Hd1).
+    cbn [mp_err mp_rd mp_doc m_reads]. rewrite Nat2N.id, rb_skipn_app_exact.
+    f_equal. apply IH; assumption.
+Qed.
+
+(* C16: back-to-back legal encodings are delivered one per call, each call stopping exactly at the
+   end of its object; the call after the last one reports EmptyInput *)
+Theorem mp_stream_objects : forall cf L vs bs, Forall2 MpEnc vs bs -> Forall mp_limits vs ->
+  Forall (fun v => (mpv_depth v <= L)%nat) vs ->
+  forall calls, mp_stream cf L calls 0 (concat bs) = firstn calls (mp_results cf 0 vs bs).
+Proof. intros cf L vs bs H Hl Hd calls. apply mp_stream_objects_gen; assumption. Qed.
+
+Lemma mp_results_length : forall cf pos vs bs, length vs = length bs ->
+  length (mp_results cf pos vs bs) = S (length vs).
+Proof.
+  intros cf pos vs. revert pos. induction vs as [|v vs IH]; intros pos [|b bs] E;
+    cbn [mp_results length] in *; try discriminate E; [reflexivity|].
+  f_equal. apply IH. lia.
+Qed.
+
+Lemma rb_Forall2_length : forall (A B : Type) (R : A -> B -> Prop) l1 l2,
+  Forall2 R l1 l2 -> length l1 = length l2.
+Proof. intros A B R l1 l2 H. induction H; cbn [length]; congruence. Qed.
+
+Corollary mp_stream_all : forall cf L vs bs, Forall2 MpEnc vs bs -> Forall mp_limits vs ->
+  Forall (fun v => (mpv_depth v <= L)%nat) vs ->
+  mp_stream cf L (S (length vs)) 0 (concat bs) = mp_results cf 0 vs bs.
+Proof.
+  intros cf L vs bs H Hl Hd. rewrite (mp_stream_objects cf L vs bs H Hl Hd).
+  rewrite <- (mp_results_length cf 0 vs bs (rb_Forall2_length _ _ _ _ _ H)). apply firstn_all.
+Qed.
+
+(* ------------------------------------------------------------------------------------- *)
+(* Examples (vm_compute) *)
+
+(* three back-to-back objects [1,2,3] "hi" nil: one per call, then EmptyInput *)
+Example mp_stream_three :
+  mp_stream default_cfg 10 4 0 [0x93; 1; 2; 3;  0xA2; 0x68; 0x69;  0xC0] =
+    [ {| c_err := Ok; c_pos := 4; c_doc := JArr [JInt 1; JInt 2; JInt 3] |};
+      {| c_err := Ok; c_pos := 7; c_doc := JStr [0x68; 0x69] |};
+      {| c_err := Ok; c_pos := 8; c_doc := JNull |};
+      {| c_err := EmptyInput; c_pos := 8; c_doc := JNull |} ].
+Proof. vm_compute. reflexivity. Qed.
+
+(* one object followed by garbage (0xC1 is the never-used code): the second call reports
+   InvalidInput after one more byte, and the stream stops there *)
+Example mp_stream_garbage :
+  mp_stream default_cfg 10 4 0 [0xC0; 0xC1; 0xC0] =
+    [ {| c_err := Ok; c_pos := 1; c_doc := JNull |};
+      {| c_err := InvalidInput; c_pos := 2; c_doc := JNull |} ].
+Proof. vm_compute. reflexivity. Qed.
+
+(* the constants of Part A cannot be improved: (error, slots, string bytes, bytes read) *)
+Definition json_cost (i : bytes) : code * nat * nat * N :=
+  let o := json_run default_cfg None 10 i in
+  (j_err o, slots (j_doc o), str_bytes (j_doc o), reads (j_st o)).
+Definition mp_cost (i : bytes) : code * nat * nat * N :=
+  let o := mp_run default_cfg None 10 i in
+  (mp_err o, slots (mp_doc o), str_bytes (mp_doc o), m_reads (mp_rd o)).
+
+(* MessagePack: slots = bytes read ([nil, <missing>] from 92 C0; two members from 82 A0 C0 A0) *)
+Example mp_slots_tight_arr : mp_cost [0x92; 0xC0] = (IncompleteInput, 2%nat, 0%nat, 2).
+Proof. vm_compute. reflexivity. Qed.
+Example mp_slots_tight_map : mp_cost [0x82; 0xA0; 0xC0; 0xA0] = (IncompleteInput, 4%nat, 0%nat, 4).
+Proof. vm_compute. reflexivity. Qed.
+(* MessagePack: string bytes = bytes read (a bin 8 object is kept whole, header included) *)
+Example mp_str_tight : mp_cost [0xC4; 0x02; 0x61; 0x62] = (Ok, 0%nat, 4%nat, 4).
+Proof. vm_compute. reflexivity. Qed.
+(* headers announcing 2^32-1 elements / a 4 GB string / a 64 KB string build nothing beyond the input *)
+Example mp_huge_array : mp_cost [0xDD; 0xFF; 0xFF; 0xFF; 0xFF; 0xC0] = (IncompleteInput, 2%nat, 0%nat, 6).
+Proof. vm_compute. reflexivity. Qed.
+Example mp_huge_str32 : mp_cost [0xDB; 0xFF; 0xFF; 0xFF; 0xFF; 0x61] = (NoMemory, 0%nat, 0%nat, 5).
+Proof. vm_compute. reflexivity. Qed.
+Example mp_huge_str16 : mp_cost [0xDA; 0xFF; 0xFF; 0x61] = (IncompleteInput, 0%nat, 0%nat, 4).
+Proof. vm_compute. reflexivity. Qed.
+(* JSON: n opening brackets leave n-1 slots behind, so no factor below 1 works; "[1," leaves 2 *)
+Example json_slots_nested : json_cost [91; 91; 91; 91] = (IncompleteInput, 3%nat, 0%nat, 4).
+Proof. vm_compute. reflexivity. Qed.
+Example json_slots_partial : json_cost [91; 49; 44] = (IncompleteInput, 2%nat, 0%nat, 3).
+Proof. vm_compute. reflexivity. Qed.
+Example json_member : json_cost [123; 34; 34; 58; 48; 125] = (Ok, 2%nat, 0%nat, 6).
+Proof. vm_compute. reflexivity. Qed.
+Example json_str : json_cost [91; 34; 97; 97; 97; 34] = (IncompleteInput, 1%nat, 3%nat, 6).
+Proof. vm_compute. reflexivity. Qed.
